@@ -807,6 +807,16 @@ fn relate(mut m: RMsg, rel: u8) -> RMsg {
                 }
             }
         }
+        12 | 13 => {
+            // the payload data begin with the message id (in the message's byte order, or in the other one)
+            let big = (m.htyp & MSBF != 0) == (rel == 12);
+            if let RPayload::NonVerbose(id, d) = &mut m.payload {
+                if d.len() >= 4 {
+                    let b = if big { id.to_be_bytes() } else { id.to_le_bytes() };
+                    d[..4].copy_from_slice(&b);
+                }
+            }
+        }
         8 | 9 => {
             // a carried run of records continues the carrier: same storage ECU id, counter + 1 (and, for 9, a header
             // ECU id that agrees with its storage id while the carrier's differ)
